@@ -126,6 +126,8 @@ def findFirstMatchLevel (c : Cfg) (p : Pt) (stop : Nat) : Nat → Option Nat
 /-- `determineLevel(p, currentLevel)`. `currentLevel-1` with the clamp `if stop < OK { stop = OK }` is the
 truncated subtraction on `Nat`. -/
 def determineLevel (c : Cfg) (p : Pt) (cur : Nat) : Nat :=
+  -- the two searches are hand-transcribed: valid only while the extractor finds exactly the transcribed source
+  if !Gen.levelSearchRecognised then critical + 1 else
   match findFirstMatchLevel c p (cur - 1) critical with
   | some l => l
   | none =>
@@ -238,7 +240,9 @@ def scanStep (c : Cfg) (cur : Nat) (sc : Scan) (bp : Pt) : Scan :=
 /-- `alertState.BufferedBatch` -/
 def batchStep (c : Cfg) (flap : FlapFn) (s : St) (b : Batch) : St × Option Ev :=
   match b.pts with
-  | [] => (s, none)
+  | [] =>
+    -- `if len(b.Points()) == 0 { return nil, nil }`; without it the code would dereference the nil highestPoint
+    if Gen.batchEmptyReturns then (s, none) else ({ s with history := [] }, none)
   | _ :: _ =>
     let cur := currentLevel s
     let sc := b.pts.foldl (scanStep c cur) {}
